@@ -21,7 +21,7 @@ Definition ignores_underb (mk : modk) : bool :=
   | MWith | MOff | MAbove | MBelow | MFork | MBracket | MTry | MDipN _
   | MReduce | MScan | MFold | MRows | MEach | MInventory | MTable | MTuples | MGroup | MPartition
   | MSpawn | MPool | MRepeat | MRepeatWithInverse | MStencil | MReduceContent | MReduceDepth _
-  | MHandleSig | MBothImpl _ _ | MUnBothImpl _ _ | MDo => true
+  | MHandleSig | MDo => true
   | _ => false end.
 (** modifiers checked in context whose run-time form uses the stored signature: it must be the inferred one *)
 Definition needs_exactb (mk : modk) : bool :=
